@@ -25,6 +25,7 @@
     trips the `panic` of `ValidateResponseTimestamps`.
 -/
 import ScionTime.Model.ClientFlow
+import ScionTime.Gen.Client
 import ScionTime.Proofs.ClientNtp
 namespace ScionTime.Props.C03Tx
 open ScionTime.Time64 ScionTime.NtpMath ScionTime.ClientNtp ScionTime.ClientFlow
@@ -227,5 +228,12 @@ theorem C03Tx_old_fallback_breaks_bound :
 theorem C03Tx_old_fallback_panics_on_fast_link :
     validateTimestamps 1164443 75000 95000 175000 = .panic ∧
     validateTimestamps 30000 75000 95000 175000 = .ok := by decide
+
+/-- **Pin** (regenerated from client_ip.go / client_scion.go on every run): the value that replaces a
+    missing kernel transmit timestamp is defined as `timebase.Now()` at a point BEFORE the write
+    (`TxFallback.preSend`). -/
+theorem C03Tx_pin_fallback :
+    Gen.Client.txFallbackIP = "timebase.Now()@before-write" ∧ Gen.Client.txFallbackSCION = "timebase.Now()@before-write" := by
+  decide
 
 end ScionTime.Props.C03Tx
